@@ -59,8 +59,30 @@ type c39Stack struct {
 	partRepo part.Repository
 }
 
-func c39NewStack(dir, kind string) *c39Stack {
+// c39Template is a migrated, closed SQLite database that every case copies instead of replaying
+// the schema migrations (they dominate the cost of a fresh stack).
+var c39Template string
+
+func c39CopyTemplate(scratch, dir string) {
+	if c39Template == "" {
+		t := filepath.Join(scratch, "c39-template")
+		verifx.Check(os.MkdirAll(t, 0o755))
+		db := verifx.Must(sqlite.OpenDatabase(filepath.Join(t, "pithos.db")))
+		verifx.Check(db.Close())
+		c39Template = t
+	}
+	ents, err := os.ReadDir(c39Template)
+	verifx.Check(err)
+	for _, e := range ents {
+		data, err := os.ReadFile(filepath.Join(c39Template, e.Name()))
+		verifx.Check(err)
+		verifx.Check(os.WriteFile(filepath.Join(dir, e.Name()), data, 0o644))
+	}
+}
+
+func c39NewStack(scratch, dir, kind string) *c39Stack {
 	verifx.Check(os.MkdirAll(dir, 0o755))
+	c39CopyTemplate(scratch, dir)
 	db := verifx.Must(sqlite.OpenDatabase(filepath.Join(dir, "pithos.db")))
 	s := &c39Stack{dir: dir, kind: kind, db: db, partKind: strings.TrimPrefix(kind, "named-")}
 	s.dflt = verifx.NewBasePartStore(db, s.partKind, filepath.Join(dir, "parts"))
@@ -147,6 +169,7 @@ type c39Run struct {
 	kinds    map[string][2]string // "b/k" -> (kind, ctype)
 	contents map[string]int
 	pids     map[string]int
+	lossy    bool // observed: an untouched empty part is unreadable (store cannot represent it)
 }
 
 func sp(s string) *string {
@@ -291,6 +314,9 @@ func (r *c39Run) snapshot(buckets []string) []*c39Obj {
 		if !found && p.size != 0 {
 			verifx.Fatalf("c39: freshly written part %s is missing", p.id.String())
 		}
+		if !found {
+			r.lossy = true // the store answers "not found" for an empty part it acknowledged
+		}
 		p.orig = data
 		p.cur = data
 	}
@@ -333,8 +359,8 @@ func (r *c39Run) corrupt(p *c39Part, how string, rng *verifx.Rng) bool {
 	case "ext":
 		next = append(append([]byte{}, p.cur...), rng.Bytes(1+rng.Intn(8))...)
 	case "gone":
-		if r.s.partKind == "sql" && len(p.cur) == 0 {
-			return false // an empty part has no rows in the SQL part store: nothing to remove
+		if r.lossy && len(p.cur) == 0 {
+			return false // the store keeps nothing for an empty part: nothing to remove
 		}
 		gone = true
 	default:
@@ -436,6 +462,7 @@ func (r *c39Run) run(sc c39Script, rng *verifx.Rng) {
 	}
 	sort.Strings(bl)
 	objs := r.snapshot(bl)
+	out.Line("lossy %d", b2i(r.lossy))
 
 	// corruptions
 	if len(sc.cors) > 0 {
@@ -696,7 +723,7 @@ func c39Directed() []c39Script {
 }
 
 func runC39(args []string) {
-	f := verifx.ParseFlags("c39", args, 220, 2500)
+	f := verifx.ParseFlags("c39", args, 130, 1500)
 	out := verifx.NewOut()
 	ctx := context.Background()
 	directed := c39Directed()
@@ -713,7 +740,7 @@ func runC39(args []string) {
 		} else {
 			sc = c39Gen(rng, f.Tier == "thorough")
 		}
-		stk := c39NewStack(filepath.Join(f.Scratch, fmt.Sprintf("c39-%d", k)), sc.stack)
+		stk := c39NewStack(f.Scratch, filepath.Join(f.Scratch, fmt.Sprintf("c39-%d", k)), sc.stack)
 		r := &c39Run{ctx: ctx, s: stk, out: out, kinds: map[string][2]string{}, contents: map[string]int{}, pids: map[string]int{}}
 		out.Case(k, seed)
 		func() {
